@@ -414,6 +414,36 @@ func c13Mutants(seeds []c13Seed, pairs bool) []c13Mutant {
 					q.Body = xmlSerialize(t)
 					add(s, "M4-allprop-beside-prop", "mutually-exclusive-elements", q)
 				}
+				// a propfind selects by exactly one of propname / allprop / prop (RFC 4918 14.20)
+				if n0.Local == "propfind" && n0.Space == indep.DAV && len(p) == 0 {
+					have := ""
+					for _, k := range []string{"propname", "allprop", "prop"} {
+						if n0.First(indep.DAV, k) != nil {
+							have = k
+						}
+					}
+					for _, k := range []string{"propname", "allprop", "prop"} {
+						if have == "" || k == have {
+							continue
+						}
+						for _, first := range []bool{true, false} {
+							t := cloneTree(root)
+							n, _, _ := nodeAt(t, p)
+							extra := &indep.Node{Space: indep.DAV, Local: k}
+							if k == "prop" {
+								extra.Children = []*indep.Node{{Space: indep.DAV, Local: "getetag"}}
+							}
+							if first {
+								n.Children = append([]*indep.Node{extra}, n.Children...)
+							} else {
+								n.Children = append(n.Children, extra)
+							}
+							q := cloneReq(s.Req)
+							q.Body = xmlSerialize(t)
+							add(s, "M4-"+k+"-beside-"+have, "mutually-exclusive-elements", q)
+						}
+					}
+				}
 				// M5 attribute corruption
 				for ai, a := range n0.Attrs {
 					key := n0.Local + "/" + a.Local
@@ -631,6 +661,13 @@ func c13Judge(m c13Mutant) (clause, detail string) {
 	}
 	if resp.Status < 100 || resp.Status > 599 {
 		return "incomplete-response", fmt.Sprint(resp.Status)
+	}
+	if resp.Status == 207 {
+		// (well-formedness and the root element only: whether the multistatus also follows the content model
+		// is C10/C11's business)
+		if root, err := indep.Parse(resp.Body); err != nil || !root.Is(indep.DAV, "multistatus") {
+			return "incomplete-response", fmt.Sprintf("status 207 with a body that is no multistatus document: %v: %q", err, trunc(string(resp.Body), 120))
+		}
 	}
 	if m.Req.Chunked {
 		// whether the length of the body is announced changes nothing: same status, same backend calls
